@@ -76,4 +76,22 @@ TEXT["C10"] = {
     "level": "Theorems encode3_canonical (= Spec canon3), decode3_encode_decode, encode2_identity, decode2_encode_decode for every accepted "
              "string. Correspondence: Encode/String/re-decode on every accepted string of the streams.",
     "ref": "5 (C10)", "note": _PNOTE, "technique": "Lean 4 proof (splitOn/intercalate round trip) + encode/re-decode correspondence"}
+TEXT["C11"] = {
+    "level": "Theorems err3_sound / err2_sound: for every level and every byte string, whichever sentinel the model's decoder returns, the "
+             "corresponding defect predicate (Spec defect3/defect2: malformed prefix or token, other version, repeated metric, unknown code, "
+             "name outside the level, missing base metric, incomplete group, misordered) holds of the string; single_defect corollaries. "
+             "Correspondence: set of sentinels matching under errors.Is on every rejected string = {model's error} and in the oracle's defect set.",
+    "ref": "5 (C11)", "note": _PNOTE, "technique": "Lean 4 proof by induction over the token loop (all byte strings) + sentinel-set correspondence"}
+TEXT["C12"] = {
+    "level": "Theorems: Split never returns an empty slice (the only index the decoders use unguarded); decode is total with outcome = "
+             "grammar or a real defect (decode3_total/decode2_total); on nil, fresh, failed-decode or field-reset objects an invalid object "
+             "scores +0 and Encode/GetError report an error (v3/v2_invalid_scores_zero, *_unknown_is_invalid). The Go runtime is not "
+             "modelled: the correspondence runs every operation under recover, incl. nil receivers and inputs of millions of separators.",
+    "ref": "5 (C12)", "note": _PNOTE + " Panics are runtime behaviour: partial in that the model exhibits them only as unreachable match arms.",
+    "technique": "Lean 4 proof (totality, invalid => zero) + recover-guarded differential runs"}
+TEXT["C14"] = {
+    "level": "Theorems view3 / view2: for every accepted string and every lower level, the view's encoding is the canonical lower-level vector, "
+             "a fresh lower-level decoder accepts it, and score, severity/validity and encoding coincide. Correspondence: accessor results vs "
+             "independent lower-level decode and vs the specification's lower-level values.",
+    "ref": "5 (C14)", "note": _PNOTE, "technique": "Lean 4 proof (projection lemmas on the fold invariant) + accessor correspondence"}
 NOT_YET = {}
